@@ -77,6 +77,16 @@ Proof.
 Qed.
 Print Assumptions T19_all_secret_flags_redacted.
 
+(* The accepting side and the redacting side agree: whatever ReadFileOrBase64 reads as inline data
+   (so that the process can start with it) is printed as the fixed placeholder. *)
+Theorem T19_accepted_inline_data_is_redacted : forall s,
+  reader_accepts s = true -> redact_base64 s = base64_placeholder.
+Proof.
+  exact (fun s => accepted_is_redacted s (proj1 ob_reader_accepts_only_redacted) (proj2 ob_reader_accepts_only_redacted)
+                    ob_redact_base64_hides_payload).
+Qed.
+Print Assumptions T19_accepted_inline_data_is_redacted.
+
 (* A flag value rendered without its redact function depends on the password. *)
 Theorem T19_unredacted_refuted :
   exists p1 p2, render_scalar R_NONE (VUserinfo (Some ([117], Some p1))) <> render_scalar R_NONE (VUserinfo (Some ([117], Some p2))).
